@@ -32,22 +32,83 @@ prop("C17",
      level_note="Trusted: Kani/CBMC translation of MIR, cadical/z3. Slices bounded to 10 bytes, programs to 5 operations.",
      mir=None, jobs=12, timeout=300)
 
-prop("C07", claimed=False, jobs=8, timeout=600, mir=None, level_text="", level_note="")
-prop("C08", claimed=False, jobs=12, timeout=600, mir=None, level_text="", level_note="")
+K = "Kani 0.68 compiles the crate and the harness to a goto program; CBMC 6.11 unwinds it to the stated bound (unwinding assertions on) and the SAT/SMT back end decides every check for all symbolic values at once."
+TRUST = "Trusted: kani-compiler's MIR->goto translation, CBMC, cadical/z3; memory-safety instrumentation is off (the crate is 100% safe Rust); allocation never fails; hooks are pass-throughs."
 
-prop("C06", claimed=False, jobs=14, timeout=900, mir=None, level_text="", level_note="")
+prop("C01",
+     level_text="Bounded model checking of the compiled table builders: every table type, constructor arguments symbolic, enumerated add sequences (<= 3 quick / <= 8 thorough entries) with symbolic entry contents, byte sum of what a byte-only sink receives asserted after construction and after every add. " + K,
+     level_note=TRUST + " History harnesses keep the OEM header concrete except one byte that ranges the running sum over all 256 states; constructor-only harnesses have all header fields symbolic. Count/length carries at 256/65536 entries need real entries and are outside the quick tier.",
+     bounds="20 checksummed structures + RSDP; histories: empty, every kind at least once, mixed pairs/triples (quick), runs to 8 (thorough); variable-size entries with 0..=3 sub-elements; builder chains k<=2 (quick) / 4 (thorough)",
+     outside="more than 8 entries; the 256th entry (count carry) and tables >= 64 KiB; RQSC controllers with >= 2 resources; all OEM bytes symbolic together with delta updates",
+     jobs=12, timeout=900, mir=None)
+prop("C02",
+     level_text="Same harness family as C01 with the assertion 'u32 at offset 4 == number of bytes received by the sink' (RSDP: offset 20 == 36; FACS: 64) after construction and after every add; all header fields and entry contents symbolic. " + K,
+     level_note=TRUST,
+     bounds="as C01; every fixed-size table (SPCR, BERT, TCPA x2, TPM2 x2, FADT, RQSC empty) has its own harness",
+     outside="more than 8 entries; u32 length overflow (>= 4 GiB)", jobs=14, timeout=900, mir=None)
+prop("C03",
+     level_text="A harness-side specification walk (first-entry offset and length-field position/width per table from the ACPI/CXL/RISC-V specs) over the emitted image of every enumerated add sequence; visited type codes, count fields, per-entry element counts, array offsets and string lengths compared with what was added. " + K,
+     level_note=TRUST + " The walker is written from the specifications, not from the crate.",
+     bounds="13 tables with variable bodies; sequences as C01; sub-elements 0..=3; ISA strings of length 0,1,2,3,6; platform names 0,3,4",
+     outside="more than 3 sub-elements per entry; strings longer than 6; RQSC with >= 2 resources", jobs=14, timeout=900, mir=None)
+prop("C04",
+     level_text="Whole-image comparison with specification-derived reference encoders (kinds.rs / fixed.rs) for every table header form and every entry kind, every scalar symbolic over its full type, every enum over all variants, optional parts present and absent. " + K,
+     level_note=TRUST + " Reference layouts: ACPI 6.5/6.6, CXL 3.0, TCG ACPI, SPCR r4, RISC-V RHCT/RQSC, VIOT; RIMT per the crate's golden tests. Not demanded: header Revision bytes, FACS version, FADT minor version, TCPA spec-revision byte order.",
+     bounds="fixed shapes (see C01), all values", outside="shapes beyond the enumerated ones", jobs=14, timeout=900, mir=None)
+prop("C05",
+     level_text="Handles are opaque, so they are observed through the reference fields of later nodes built from them; every enumerated sequence uses every earlier handle and the harness asserts field == specification offset of the target node and target type code, after every add. " + K,
+     level_note=TRUST,
+     bounds="PPTT, RHCT, RIMT, VIOT; sequences of 2..6 nodes with every node kind before/between/after handle-returning nodes",
+     outside="sequences longer than 6 nodes; handle counters past 65535 (C18)", jobs=14, timeout=900, mir=None)
+prop("C06",
+     level_text="Per-constructor production lemmas (ACPI 6.5 20.2) around opaque symbolic children of concrete length: opcode order, PkgLength closing on the last child, operand order, flag bits over all enum variants; all finite trees follow by structural induction on the constructors. " + K,
+     level_note=TRUST + " The induction step itself (children correct by hypothesis, PkgLength by C07) is an argument, not a query.",
+     bounds="all exported constructors; 0..=3 children of 0..=3 bytes; 1- and 2-segment names, rooted and not; names through the Path hook",
+     outside="bodies at the 63/64 and 4095/4096 boundaries are covered for Scope (C15) and templates (C10) only; 2^20 bodies are not materialised", jobs=14, timeout=900, mir=None)
+prop("C07",
+     level_text="The private encoder is driven through a pass-through hook with the length itself symbolic (one query covers all 2^28 lengths x both forms); decoded value, lead-byte format and minimality asserted; Field/Named/Reserved tie it to the public API. Engine M re-derives the same statement from rustc's MIR (dev and release) with z3, cross-checked by cvc5. " + K,
+     level_note=TRUST + " Engine M trusts the MIR text dump and my 400-line translator, validated on the crate's own test vectors.",
+     bounds="all len with total < 2^28, both forms", outside="lengths >= 2^28 (C18)", jobs=8, timeout=600, mir=True,
+     technique="bounded model checking (Kani/CBMC) + MIR->SMT-LIB2 bit-vector encoding decided by z3/cvc5")
+prop("C08",
+     level_text="One query per integer type covers the whole type: emitted bytes == narrowest reference encoding and decode back; cross-type equality; BufferData size prefix. Engine M: all paths of the five to_aml_bytes impls from MIR, dev and release. " + K,
+     level_note=TRUST, bounds="u8, u16, u32, u64, usize: all values", outside="nothing within the integer encoder; embedded uses at 255/256 are thorough-tier",
+     jobs=12, timeout=600, mir=True, technique="bounded model checking (Kani/CBMC) + MIR->SMT-LIB2 bit-vector encoding decided by z3/cvc5")
+prop("C09",
+     level_text="Encoding half decided symbolically (segments over all byte values through the Path hook, counts 1..=4 quick, 5/16/254/255 thorough); scanning half (Path::new) executed on enumerated concrete strings including every malformed-segment position. " + K,
+     level_note=TRUST + " No universality over string contents is claimed for the scanner (DESIGN 2.6).",
+     bounds="segment counts 1,2,3,4 (+5,16,254,255); scanner strings < 16 bytes not ending in a separator",
+     outside="Path::new over arbitrary contents; strings >= 16 bytes or ending in '.'", jobs=14, timeout=600, mir=None)
+prop("C10",
+     level_text="Reference encoder per descriptor kind with all arguments symbolic inside the documented domain; template lemma with opaque children; walk of real-descriptor templates by their own length fields; width boundaries via concrete-size blobs. " + K,
+     level_note=TRUST, bounds="7 descriptor kinds x 3 address widths; templates of 0..=3 descriptors; payloads 56..=60 and 253..=255",
+     outside="templates with more than 3 descriptors", jobs=14, timeout=600, mir=None)
+prop("C11",
+     level_text="Symbolic option programs: k calls, each a symbolic choice among the structure's option builders with symbolic arguments; flag field == OR of specification bits, every other byte unchanged; FADT via a one-step harness from an arbitrary prior flags value (unbounded in history). " + K,
+     level_note=TRUST, bounds="k = 2..3 (quick), up to 9 (thorough)", outside="programs longer than k", jobs=14, timeout=600, mir=None)
+prop("C12",
+     level_text="SLIT n<=3 (4 thorough) and HMAT shapes up to 3x3 including single row/column, k<=2 (3 thorough) assignments with symbolic in-range indices and values (diagonal, mirrored, repeated included), compared with an array model; checksum and length asserted. " + K,
+     level_note=TRUST, bounds="see text", outside="n > 4, more than 3 assignments", jobs=14, timeout=600, mir=None)
+prop("C13",
+     level_text="Operation sequences (2 quick / 3 thorough) over {typed append, slice append, typed write, slice write, sink byte/word/dword/qword/vec} with symbolic values and write offsets symbolic over every in-range offset, against an array+length model with Length rewritten and byte 9 recomputed; out-of-range writes must be refused. " + K,
+     level_note=TRUST + " 'Unchanged after a refused write' cannot be observed under Kani's abort-on-panic model.",
+     bounds="initial lengths 36, 37, 40, 44; sequences of <= 3 operations", outside="longer sequences; symbolic initial length", jobs=14, timeout=600, mir=None)
+prop("C14",
+     level_text="Each object kind is serialised into the built-in vector sink (twice), a byte-only sink, a sink overriding all five entry points, the checksum sink, the generic-table sink and the package-builder sink; the concatenations, the byte sum and the raw in-memory form are compared. " + K,
+     level_note=TRUST, bounds="32 table-entry kinds, 20 raw-form structures, 15 AML constructors, 3 whole tables; all argument values",
+     outside="objects not in the enumerated list", jobs=14, timeout=600, mir=None)
+prop("C15",
+     level_text="Scope::raw vs Scope::new with a symbolic payload of concrete size swept across the first PkgLength boundary; PackageBuilder vs Package; &str vs String; usize vs u64. " + K,
+     level_note=TRUST, bounds="payload sizes 0,1,4,57..=60 (quick), +2,16,48,49,56,61,80,200 (thorough)",
+     outside="sizes near 4096 and 2^20 (create_pkg_length itself is covered for all sizes by C07)", jobs=14, timeout=600, mir=None)
+prop("C16",
+     level_text="All 26^3*16^4 EISA ids in one query (symbolic characters under the validity predicate, decompression by the specification's rule); hex-pair mapping for all characters through the hook; Uuid::new placement and refusals on concrete strings. " + K,
+     level_note=TRUST + " Universality over digits through Uuid::new itself is the composition of the two halves (DESIGN 2.6).",
+     bounds="see text", outside="Uuid::new over arbitrary contents", jobs=14, timeout=600, mir=None)
 
-RQSC_COST = ("RQSC multi-resource / multi-controller byte-sum query exceeds 30 min on both back ends (values pass "
-             "through nested Vec copies); RQSC recomputes its checksum from scratch on every add, covered at 0-1 "
-             "resources; the same sequences run for C02-C04")
-prop("C01", claimed=False, jobs=12, timeout=900, mir=None, level_text="", level_note="",
-     skip={"q_rqsc_c2mem_acpi": RQSC_COST, "q_rqsc_c1pci_c0_c1vendor": RQSC_COST, "t_rqsc_c2vendor_cache_c2pci_mem": RQSC_COST})
-prop("C02", claimed=False, jobs=14, timeout=900, mir=None, level_text="", level_note="")
-prop("C03", claimed=False, jobs=14, timeout=900, mir=None, level_text="", level_note="")
-prop("C04", claimed=False, jobs=14, timeout=900, mir=None, level_text="", level_note="")
 
-for _p in ("C09", "C10", "C11", "C15", "C16"):
-    prop(_p, claimed=False, jobs=14, timeout=600, mir=None, level_text="", level_note="")
+for _p in ("C18",):
+    prop(_p, claimed=False, jobs=14, timeout=600, mir=True, level_text="", level_note="")
 
 
 def bounds_of(prop_id, short):
